@@ -87,7 +87,7 @@ func runC02(seed int64, nconn, rounds int) string {
 					}
 					atomic.AddInt64(&sent, int64(k))
 					for j := 0; j < k; j++ {
-						v, err := sc.recv(6 * time.Second)
+						v, err := sc.recv(time.Duration(float64(6*time.Second) * loadFactor))
 						if err != nil {
 							if ne, ok := err.(interface{ Timeout() bool }); ok && ne.Timeout() {
 								atomic.AddInt64(&hung, 1)
